@@ -106,6 +106,7 @@ var c18Cat = func() []c18CatEntry {
 		m    map[string]string
 	}{
 		{"annotation with an empty value", map[string]string{"k": ""}},
+		{"annotation keys that are member names of the document", map[string]string{"annotations": "v", "devices": "v", "name": "v", "containerEdits": "v", "kind": "v", "cdiVersion": "v", "env": "v"}},
 		{"annotations with empty and blank values", map[string]string{"example.com/key": "", "other": " ", "third": "\t"}},
 		{"annotation key of 63+1+63 bytes with an empty value", map[string]string{strings.Repeat("p", 63) + "/" + strings.Repeat("n", 63): ""}},
 	} {
